@@ -1581,9 +1581,17 @@ def open_and_isolated(mk, flavour, geom, update, kind):
             any(len(ts) == 1 for ts in fg.ind_map.values()) or any(not inds for _, inds in fg.terms.values()), True)
     Z = fg.z()
     ro = run_opts(mk, tn, hyper=True)
+    # every open leg adds a label region and a message-pair region whose values are (normalisers times) the full value: with
+    # several open legs the expanded product of all region values is out of reach -> value goals numeric-only there, messages
+    # and marginals stay symbolic
+    heavy = mk.sym and geom in ("open_multi", "open_hyper")
+    if heavy:
+        mk.note("several open legs: contract() value goals are numeric-only (expanded product of > 10 region values); "
+                "messages and marginals are symbolic")
     if flavour == "HD1BP":
         kw = dict(normalize=nl1 if kind == "pos" else nsum, distance=sdist, update=update, smudge_factor=0.0)
-        mk.eq(f"contract_hd1bp({geom}, update={update}) == exact value (open legs summed)", hd1bp.contract_hd1bp(tn, **kw, **ro), Z)
+        if not heavy:
+            mk.eq(f"contract_hd1bp({geom}, update={update}) == exact value (open legs summed)", hd1bp.contract_hd1bp(tn, **kw, **ro), Z)
         bp = hd1bp.HD1BP(tn, **kw)
         info = {}
         bp.run(info=info, **ro)
@@ -1591,15 +1599,18 @@ def open_and_isolated(mk, flavour, geom, update, kind):
     else:
         kw = dict(normalize=l1_batched if kind == "pos" else nsum_batched, distance=sdist, smudge_factor=0.0)
         init = bp_common.initialize_hyper_messages(tn, smudge_factor=0.0)
-        mk.eq(f"contract_hv1bp({geom}) == exact value (open legs summed)", hv1bp.contract_hv1bp(tn, messages=dict(init), **kw, **ro), Z)
+        if not heavy:
+            mk.eq(f"contract_hv1bp({geom}) == exact value (open legs summed)", hv1bp.contract_hv1bp(tn, messages=dict(init), **kw, **ro), Z)
         bp = hv1bp.HV1BP(tn, messages=dict(init), **kw)
         info = {}
         bp.run(info=info, **ro)
         msgs = bp.get_messages_dense()
-        mk.eq("HV1BP.contract_dense() == exact value", bp.contract_dense(), Z)
+        if not heavy:
+            mk.eq("HV1BP.contract_dense() == exact value", bp.contract_dense(), Z)
     converged_goal(mk, "last round changed nothing (max_mdiff == 0)", info)
     hyper_messages_exact(mk, msgs, bp.tn, fg, flavour)
-    mk.eq(f"{flavour}.contract() == exact value", bp.contract(), Z)
+    if not heavy:
+        mk.eq(f"{flavour}.contract() == exact value", bp.contract(), Z)
     marginal_goals(mk, bp.tn, msgs, fg, flavour)
     if not mk.sym:
         if flavour == "HD1BP":
